@@ -44,6 +44,11 @@ class Feeder:
         return ln
 
 
+def _pclass(parts):
+    """category() only tells ' ' and '#' from anything else; join() only asks parts[0] == ' '"""
+    return tuple(p if p in (" ", "#") else "x" for p in parts)
+
+
 def _snap(cframe):
     try:
         cl = cframe.f_locals["cleaner"]
@@ -52,7 +57,7 @@ def _snap(cframe):
         fc = fl["cleaner"]
         cur = fl["curr_line"]
         ll = cur.current_logical_line
-        return (tuple(fc.state), bool(fc.verify_continue), tuple(cl.state), ll.category(), bool(cur.lines))
+        return (tuple(fc.state), bool(fc.verify_continue), tuple(cl.state), ll.category(), bool(cur.lines), _pclass(ll.parts[:2]), min(len(ll.parts), 3), bool(ll.trailing_space))
     except Exception:  # noqa
         return None
 
